@@ -25,6 +25,10 @@ func propConfigs() map[string]*PropConfig {
 	add(&PropConfig{ID: "C01", Prefix: "VH_C01_", Sets: []HarnessSet{hfiles("fast", fastLib, "fast/c01_binary_gen.go", "fast/c01_more_gen.go")},
 		Thorough: func(n string) bool { return strings.Contains(n, "_T_") },
 		Explain: "pattern B: the real Comp.BinaryExpr1/UnaryExpr/Symbol.expr compile functions are executed on symbolic operands per (operator, kind, constness shape); the returned closure is run and compared with the native Go operator"})
+	xrp := "(*github.com/cosmos72/gomacro/xreflect.xtype)."
+	add(&PropConfig{ID: "C34", Prefix: "VH_C34_", Sets: []HarnessSet{hfiles("xreflect", "xreflect/lib_xreflect.go", "xreflect/c34_gen.go")},
+		Redirect: map[string]string{xrp + "NumMethod": "vhModelNumMethod", xrp + "Method": "vhModelMethod", xrp + "GetMethods": "vhModelGetMethods"},
+		Explain: "pattern B: the real Universe.addBasicTypeMethodsCTI is executed for each (kind, method name); the installed function value is extracted and compared with the Go operator for all operand values"})
 	return m
 }
 
